@@ -95,7 +95,12 @@ func setupC18(x *Ctx) {
 				}
 			}
 			if x.S.Now()-lastProd >= 3*time.Second {
-				return checkPairingNotifications(x, r, phase)
+				ok, still := checkPairingNotifications(x, r, phase)
+				if still {
+					return ok
+				}
+				// a state was produced while the hubs were being asked: not a stable point
+				x.Probe("stable-point-overtaken")
 			}
 			simrt.Sleep(500 * time.Millisecond)
 		}
@@ -228,7 +233,9 @@ func setupC18(x *Ctx) {
 }
 
 // checkPairingNotifications is the C18 oracle at a stable point.
-func checkPairingNotifications(x *Ctx, r *hubRig, phase string) bool {
+// The second result is false if a pairing state was produced less than 3 s before the
+// hubs had answered (then nothing is judged).
+func checkPairingNotifications(x *Ctx, r *hubRig, phase string) (bool, bool) {
 	type key struct{ node, ski string }
 	last := map[key]int{}
 	lastKind := map[key]string{}
@@ -243,6 +250,11 @@ func checkPairingNotifications(x *Ctx, r *hubRig, phase string) bool {
 			if n != m {
 				n.on("query", func() { current[key{n.name, m.ski}] = int(n.hub.PairingDetailForSki(m.ski).State()) })
 			}
+		}
+	}
+	for _, e := range x.Events() {
+		if (e.Kind == "pairing-produced" || e.Kind == "app-pairing") && x.S.Now()-e.T < 3*time.Second {
+			return true, false
 		}
 	}
 	prodAt := map[int]time.Duration{} // production time of pairing detail #seq
@@ -326,5 +338,5 @@ func checkPairingNotifications(x *Ctx, r *hubRig, phase string) bool {
 		}
 	}
 	x.NonTrivial()
-	return !bad
+	return !bad, true
 }
